@@ -118,6 +118,7 @@ class SeqOps:
         fa([s, t, i], z3.Implies(z3.And(0 <= i, i < Len(s)), At(Cat(s, t), i) == At(s, i)), At(Cat(s, t), i))
         fa([s, t, i], z3.Implies(z3.And(Len(s) <= i, i < Len(s) + Len(t)), At(Cat(s, t), i) == At(t, i - Len(s))), At(Cat(s, t), i))
         fa([s, t, x], Mem(Cat(s, t), x) == z3.Or(Mem(s, x), Mem(t, x)), Mem(Cat(s, t), x))
+        fa([s, t, x], Cat(s, App(t, x)) == App(Cat(s, t), x), Cat(s, App(t, x)))
         fa([s], Cat(s, Empty) == s, Cat(s, Empty))
         fa([s], Cat(Empty, s) == s, Cat(Empty, s))
         # RemFirst
